@@ -61,6 +61,8 @@ func marker(e *common.Env, tag string) []byte {
 
 func collectStrings(obj pdf.Object, out *[][]byte) {
 	switch x := obj.(type) {
+	case pdf.TextString, pdf.Date, renderStr, renderNest:
+		collectStrings(x.(pdf.Object).AsPDF(0), out) // the strings of an object are those of its rendering
 	case pdf.String:
 		*out = append(*out, []byte(x))
 	case pdf.Array:
@@ -141,7 +143,54 @@ func (rn *run) nextID(p string) string {
 	return fmt.Sprintf("%s%d", p, rn.id)
 }
 
-func fresh(b []byte) pdf.String { return pdf.String(append([]byte{}, b...)) }
+
+// ---- objects that are not Native but render as PDF strings ---------------------------------------------------
+
+// renderStr / renderNest are Objects defined outside the library: all the Writer knows about them is AsPDF
+type renderStr struct{ b []byte }
+
+func (r renderStr) AsPDF(pdf.OutputOptions) pdf.Native { return pdf.String(append([]byte{}, r.b...)) }
+
+type renderNest struct{ b []byte }
+
+func (r renderNest) AsPDF(pdf.OutputOptions) pdf.Native {
+	return pdf.Array{pdf.String(append([]byte{}, r.b...)), pdf.Dict{"W": renderStr{r.b}}, pdf.TextString("t-" + string(r.b))}
+}
+
+func freshS(b []byte) pdf.String { return pdf.String(append([]byte{}, b...)) }
+
+func printableASCII(b []byte) bool {
+	for _, c := range b {
+		if c < 0x20 || c > 0x7e {
+			return false
+		}
+	}
+	return len(b) > 0
+}
+
+// fresh returns an object which renders as (or, for renderNest, contains) the string b: a pdf.String, or one of the
+// typed wrappers - pdf.TextString, an Object whose AsPDF yields a String, one whose AsPDF yields an array with a
+// string, a dictionary with a wrapped string and a TextString.  The choice depends on b only, so that the value
+// written and the value expected are built alike.
+func fresh(b []byte) pdf.Object {
+	h := 0
+	for _, c := range b {
+		h = (h*31 + int(c)) % 1000003
+	}
+	switch h % 7 {
+	case 3:
+		if printableASCII(b) {
+			return pdf.TextString(string(b))
+		}
+	case 4:
+		return renderStr{append([]byte{}, b...)}
+	case 5:
+		if printableASCII(b) {
+			return renderNest{append([]byte{}, b...)}
+		}
+	}
+	return freshS(b)
+}
 
 func (rn *run) checkFile(cfg config) {
 	e := rn.e
@@ -213,7 +262,7 @@ func (rn *run) checkFile(cfg config) {
 		s, a, x, tw := mk("s"), mk("a"), mk("x"), mk("tw")
 		bin := randBytes(e, 1+e.Rand.IntN(30))
 		put(w.Alloc(), func() pdf.Object {
-			t := fresh(tw) // one String value used twice in the same object
+			t := freshS(tw) // one String value used twice in the same object
 			return pdf.Dict{"S": fresh(s), "Arr": pdf.Array{fresh(a), pdf.Dict{"X": fresh(x)}}, "Same": fresh(same),
 				"Empty": pdf.String(""), "Bin": fresh(bin), "Twice": pdf.Array{t, t}}
 		})
@@ -300,7 +349,7 @@ func (rn *run) checkFile(cfg config) {
 	rn.fileIdx++
 	mkLong := func(tag string, n, shape int) func() pdf.Object {
 		m := mk(tag)
-		elem := func(i int) pdf.String { return fresh(append(append([]byte{}, m...), []byte(fmt.Sprintf("-%d", i))...)) }
+		elem := func(i int) pdf.Object { return fresh(append(append([]byte{}, m...), []byte(fmt.Sprintf("-%d", i))...)) }
 		return func() pdf.Object {
 			flat := make(pdf.Array, n)
 			for i := range flat {
